@@ -14,6 +14,7 @@ RULE = ("Generated: DensityMatrix with num_visible 1..4 x num_hidden 1..4 x num_
         "both networks non-zero, and some off-diagonal entry with |Im| > 1e-6*sqrt(rho_ii rho_jj).")
 RULE_EXT = ('Extended as built: n 5..8 in 1/16 of cases; phase auxiliary bias non-zero in 1/5 of cases; every evaluation repeated after a second object was evaluated and along the in-place history A -> B -> A; importance_sampling_* and compute_normalization compared with the same reference. Rounds 5-6: num_aux = 0 (1 in 12 cases); sparse single-entry-point histories; ownership of results for every rho call form, probability and normalization.')
 RULE_EXT += ' Round 10 (after an exception / long time axis): after an aborted fit() and a parameter change (same space object); sub-check sampling: empirical k-step law of DensityMatrix.sample for k in {2,17,40,100,200} on slowly mixing (balanced two-mode) networks vs T_ref^k.'
+RULE_EXT += ' Re-entrant use: rho / probability / normalisation asked for from inside the callbacks of a running fit vs the reference at the parameters of that moment.'
 RULE = RULE + " " + RULE_EXT
 ASSUMPTIONS = ["CPU only", "parameters rescaled so |log weight| <= 300",
                "entry tolerance 1e-6*sqrt(rho_ii*rho_jj); PSD checked on the unit-diagonal congruence D^-1/2 rho D^-1/2 with eigenvalues >= -1e-7"]
@@ -76,6 +77,32 @@ def check(case):
         raise PropertyViolation("after-reinitialise:" + v.bucket, "after reinitialize_parameters() and writing OTHER parameters into the new parameter objects: " + v.message, v.detail)
     gen.set_net(state.rbm_am, case["am"])
     gen.set_net(state.rbm_ph, case["ph"])
+    if case["n"] <= 3 and len(case["i1"]) % 3 == 1:
+        # re-entrant use (see c01.py): rho, probability and normalisation asked for from INSIDE the callbacks of a running fit
+        from qucumber.callbacks import LambdaCallback
+        import numpy as _np2
+        sp_ = state.generate_hilbert_space()
+        V_ = R.bits(case["n"])
+        dat_ = sp_[: min(4, sp_.shape[0])].clone()
+        seen_ = []
+
+        def look(s_):
+            seen_.append((gen.net_of(s_.rbm_am), gen.net_of(s_.rbm_ph), R.lib_to_c(s_.rho(sp_, sp_)), s_.probability(sp_).double().clone(), s_.normalization(sp_).double().clone()))
+        guard_, div_ = gen.divergence_guard()
+        state.fit(dat_, epochs=2, pos_batch_size=2, lr=0.05, input_bases=_np2.array([["Z"] * case["n"]] * dat_.shape[0]),
+                  callbacks=[LambdaCallback(on_batch_end=lambda s_, e_, b_: look(s_), on_epoch_end=lambda s_, e_: look(s_)), guard_])
+        if not div_[0]:
+            for j_, (am_, ph_, rho_, pr_, z_) in enumerate(seen_):
+                ref_ = R.rho_ref(am_, ph_, V_)
+                d_ = ref_.diagonal().real
+                sc_ = torch.sqrt(d_[:, None] * d_[None, :])
+                require(bool(torch.all((rho_ - ref_).abs() <= 1e-6 * sc_ + 1e-300)) and bool(torch.all((pr_ - d_).abs() <= REF_RTOL * d_)), "inside-fit-callback:rho",
+                        f"look #{j_} from inside a callback of a running fit: rho / probability are not those of the parameters the model had at that moment")
+                require(abs(float(z_) - float(d_.sum())) <= REF_RTOL * float(d_.sum()), "inside-fit-callback:trace!=normalization",
+                        f"look #{j_} from inside a callback of a running fit: normalization() is not the trace of rho of the parameters the model had at that moment", Z=float(z_), trace=float(d_.sum()))
+        state.stop_training = False
+        gen.set_net(state.rbm_am, case["am"])
+        gen.set_net(state.rbm_ph, case["ph"])
     if case["n"] <= 4:
         # after an exception (see c01.py): aborted fit with normalisation evaluated in a callback, caught, parameters changed, evaluated
         import numpy as _np
